@@ -63,6 +63,9 @@ Ranges == {<<0, NoLimit>>, <<500, NoLimit>>, <<501, NoLimit>>, <<0, 499>>, <<0, 
 SeatRanges == {<<0, NoLimit>>, <<150, NoLimit>>, <<0, 100>>, <<101, 299>>, <<0, 0>>}
 SvcOpts == {{}, {"J"}, {"J", "F"}, {"C"}}
 AcftOpts == {{}, {"738"}, {"320", "77W"}}
+\* svc / acft = {} means "no restriction"; such a condition may be left out or written as an empty list (TypeForms) -
+\* both forms mean the same, the harness uses one or the other per filter
+TypeForms == {"omitted", "empty_list"}
 Filters == [dist : Ranges, seats : SeatRanges, svc : SvcOpts, acft : AcftOpts, sp : Spatials]
 EmptyFilter == [dist |-> <<0, NoLimit>>, seats |-> <<0, NoLimit>>, svc |-> {}, acft |-> {},
                 sp |-> [comb |-> None, orig |-> None, dest |-> None, orig2 |-> None]]
